@@ -145,5 +145,15 @@ Definition prop (k : case) : bool :=
                negb (Z.eqb (fst tr) (fst tl) && removal_matches m j (fst (snd tr)) (snd (snd tr))
                      && (1 =? Z.of_nat (List.length (filter (fun j' => removal_matches m j' (fst (snd tr)) (snd (snd tr))) (snd tl)))))
                || negb (existsb (inter_eqb j) (iget ii (fst tl)))) rems) (snd tl)) (inters m)
-      else true
+      else
+        (* a link that only changes attributes of the atoms it fits on, followed by a link without such changes: the second
+           sees the molecule as the first left it, and every interaction it states there is present *)
+        match Ls with
+        | [A; B] =>
+            if stable B && match linters A, lremoved A with [], [] => true | _, _ => false end
+            then let m' := if fast then do_links_fast [A] m else do_links [A] m in
+                 forallb (fun ti => existsb (inter_eqb (snd ti)) (iget ii (fst ti))) (all_adds fast [B] m')
+            else true
+        | _ => true
+        end
   end.
